@@ -1667,6 +1667,46 @@ fn main() {
         );
     }
 
+    // ---- the hypotheses of `durable_ops_linearizable` and `durable_order_eq_memory_order` /
+    //      `recovered_eq_live` on the real store: directed histories in which one guard of the
+    //      durable path is the only thing between the code and a violation, then seeded runs
+    {
+        let mut r = root.fork("directed.durable");
+        let (p1, e1, e2, e3) = (Key::new(Cls::P, 1), Key::new(Cls::E, 1), Key::new(Cls::E, 2), Key::new(Cls::E, 3));
+        let n = |t: u32| Val { tag: t, vec: VecF::N };
+        let g = |t: u32| Val { tag: t, vec: VecF::Good(t) };
+        let b = |t: u32| Val { tag: t, vec: VecF::Bad(t) };
+        // a reader and a non-durable writer between the log step and the apply of a durable put:
+        // the logged write is invisible until it is applied, then overwrites
+        ctx.case(
+            "directed.durable.reader_between_log_and_apply",
+            &[vec![Op::PutD(p1, n(1))], vec![Op::Get(p1), Op::Get(p1), Op::PutD(p1, n(3))], vec![Op::Put(p1, n(2)), Op::Scan(Key::of("user:"))]],
+            Some(SyncMode::Immediate),
+            Some(&[0, 1, 2, 2, 1, 0, 1, 1]),
+            &mut r,
+            true,
+        );
+        let seqs: Vec<(&str, Vec<Op>)> = vec![
+            // the vector of an older value must not survive a put without vector, live or replayed
+            ("emb_put_without_vector_drops_slab_entry", vec![Op::PutD(e1, g(1)), Op::PutD(e1, n(2)), Op::Get(e1), Op::Ex(e1)]),
+            // a vector of another dimension: kept in the metadata alone, the old slab entry dropped
+            ("emb_put_wrong_dimension", vec![Op::PutD(e1, g(1)), Op::PutD(e1, b(2)), Op::Get(e1), Op::PutD(e1, g(3)), Op::Get(e1)]),
+            // entity ids after a delete: the tombstoned id is not reused, replay assigns the same ids
+            ("emb_ids_after_delete", vec![Op::PutD(e1, g(1)), Op::PutD(e2, g(2)), Op::DelD(e1), Op::PutD(e3, g(3)), Op::PutD(e1, g(4)), Op::Get(e1), Op::Get(e2), Op::Get(e3), Op::Scan(Key::of("emb:"))]),
+            // delete of a key that was never put, of a key put without vector, twice
+            ("emb_deletes", vec![Op::DelD(e1), Op::PutD(e1, n(1)), Op::DelD(e1), Op::DelD(e1), Op::Ex(e1), Op::PutD(e2, b(2)), Op::DelD(e2), Op::Scan(Key::of("emb:"))]),
+        ];
+        for (name, prog) in seqs {
+            ctx.case(&format!("directed.durable.{name}"), &[prog], Some(SyncMode::Immediate), None, &mut r, true);
+        }
+        // two durable writers of emb:1 (four steps each, serialised by the mutex) and a reader inside
+        let three = vec![vec![Op::PutD(e1, g(1)), Op::DelD(e1), Op::PutD(e1, n(3))], vec![Op::PutD(e1, b(2)), Op::Get(e1)], vec![Op::PutD(p1, g(4)), Op::Scan(Key::of(""))]];
+        ctx.case("directed.durable.emb_writers_and_reader", &three, Some(SyncMode::Immediate), Some(&[0, 0, 0, 0, 1, 1, 1, 1, 2, 1, 2, 0, 1, 2, 0, 0, 0, 0, 0, 0, 0]), &mut r, true);
+        for _ in 0..(4 * scale) {
+            ctx.case("directed.durable.emb_writers_and_reader", &three, Some(SyncMode::Manual), None, &mut r, true);
+        }
+    }
+
     // ---- directed small scenarios: every op kind × every class, sequential and 2-thread
     {
         let mut r = root.fork("directed");
@@ -1713,7 +1753,7 @@ fn main() {
 
     // ---- keys and prefixes that are arbitrary strings (see `PIECES`): 1-4 threads, a quarter of
     //      the operations prefix scans; without and with the log (recovered = live per key)
-    for (stream, durable, n) in [("random.odd_keys", false, 150u64), ("random.odd_keys_durable", true, 60)] {
+    for (stream, durable, n) in [("random.odd_keys", false, 120u64), ("random.odd_keys_durable", true, 50)] {
         let mut r = root.fork(stream);
         let mut g = Gen { next_tag: 0 };
         for i in 0..(n * scale) {
@@ -1746,48 +1786,12 @@ fn main() {
         ctx.real_mutex = false;
     }
 
-    // ---- the hypotheses of `durable_ops_linearizable` and `durable_order_eq_memory_order` /
-    //      `recovered_eq_live` on the real store: directed histories in which one guard of the
-    //      durable path is the only thing between the code and a violation, then seeded runs
+    // ---- seeded runs under the hypothesis of `durable_order_eq_memory_order` / `recovered_eq_live`
     {
-        let mut r = root.fork("directed.durable");
-        let (p1, e1, e2, e3) = (Key::new(Cls::P, 1), Key::new(Cls::E, 1), Key::new(Cls::E, 2), Key::new(Cls::E, 3));
-        let n = |t: u32| Val { tag: t, vec: VecF::N };
-        let g = |t: u32| Val { tag: t, vec: VecF::Good(t) };
-        let b = |t: u32| Val { tag: t, vec: VecF::Bad(t) };
-        // a reader and a non-durable writer between the log step and the apply of a durable put:
-        // the logged write is invisible until it is applied, then overwrites
-        ctx.case(
-            "directed.durable.reader_between_log_and_apply",
-            &[vec![Op::PutD(p1, n(1))], vec![Op::Get(p1), Op::Get(p1), Op::PutD(p1, n(3))], vec![Op::Put(p1, n(2)), Op::Scan(Key::of("user:"))]],
-            Some(SyncMode::Immediate),
-            Some(&[0, 1, 2, 2, 1, 0, 1, 1]),
-            &mut r,
-            true,
-        );
-        let seqs: Vec<(&str, Vec<Op>)> = vec![
-            // the vector of an older value must not survive a put without vector, live or replayed
-            ("emb_put_without_vector_drops_slab_entry", vec![Op::PutD(e1, g(1)), Op::PutD(e1, n(2)), Op::Get(e1), Op::Ex(e1)]),
-            // a vector of another dimension: kept in the metadata alone, the old slab entry dropped
-            ("emb_put_wrong_dimension", vec![Op::PutD(e1, g(1)), Op::PutD(e1, b(2)), Op::Get(e1), Op::PutD(e1, g(3)), Op::Get(e1)]),
-            // entity ids after a delete: the tombstoned id is not reused, replay assigns the same ids
-            ("emb_ids_after_delete", vec![Op::PutD(e1, g(1)), Op::PutD(e2, g(2)), Op::DelD(e1), Op::PutD(e3, g(3)), Op::PutD(e1, g(4)), Op::Get(e1), Op::Get(e2), Op::Get(e3), Op::Scan(Key::of("emb:"))]),
-            // delete of a key that was never put, of a key put without vector, twice
-            ("emb_deletes", vec![Op::DelD(e1), Op::PutD(e1, n(1)), Op::DelD(e1), Op::DelD(e1), Op::Ex(e1), Op::PutD(e2, b(2)), Op::DelD(e2), Op::Scan(Key::of("emb:"))]),
-        ];
-        for (name, prog) in seqs {
-            ctx.case(&format!("directed.durable.{name}"), &[prog], Some(SyncMode::Immediate), None, &mut r, true);
-        }
-        // two durable writers of emb:1 (four steps each, serialised by the mutex) and a reader inside
-        let three = vec![vec![Op::PutD(e1, g(1)), Op::DelD(e1), Op::PutD(e1, n(3))], vec![Op::PutD(e1, b(2)), Op::Get(e1)], vec![Op::PutD(p1, g(4)), Op::Scan(Key::of(""))]];
-        ctx.case("directed.durable.emb_writers_and_reader", &three, Some(SyncMode::Immediate), Some(&[0, 0, 0, 0, 1, 1, 1, 1, 2, 1, 2, 0, 1, 2, 0, 0, 0, 0, 0, 0, 0]), &mut r, true);
-        for _ in 0..(4 * scale) {
-            ctx.case("directed.durable.emb_writers_and_reader", &three, Some(SyncMode::Manual), None, &mut r, true);
-        }
         let stream = "random.durable_writers_and_readers";
         let mut r = root.fork(stream);
         let mut g = Gen { next_tag: 0 };
-        for i in 0..(120 * scale) {
+        for i in 0..(100 * scale) {
             let nthreads = 2 + (i % 5) as usize; // 2..=6
             let progs = g.durable_rw(&mut r, nthreads);
             let wal = Some(if i % 8 == 0 { SyncMode::Immediate } else { SyncMode::Manual });
